@@ -85,6 +85,13 @@ func (s MsgServer) BondedOracle(c context.Context, msg *types.MsgBondedOracle) (
 		return nil, err
 	}
 
+	// a returning oracle whose last event nonce is older than the starting point of a new oracle
+	// starts like a new oracle, otherwise it continues after its last vote
+	if lastObserved := s.GetLastObservedEventNonce(ctx); lastObserved >= 1 &&
+		s.GetLastEventNonceByOracle(ctx, oracleAddr) < lastObserved-1 {
+		s.DelLastEventNonceByOracle(ctx, oracleAddr)
+	}
+
 	s.SetOracle(ctx, oracle)
 	s.SetOracleAddrByBridgerAddr(ctx, bridgerAddr, oracleAddr)
 	s.SetOracleAddrByExternalAddr(ctx, msg.ExternalAddress, oracleAddr)
@@ -340,7 +347,8 @@ func (s MsgServer) UnbondedOracle(c context.Context, msg *types.MsgUnbondedOracl
 	s.DelOracleAddrByExternalAddr(ctx, oracle.ExternalAddress)
 	s.DelOracleAddrByBridgerAddr(ctx, oracle.GetBridger())
 	s.DelOracle(ctx, oracle.GetOracle())
-	s.DelLastEventNonceByOracle(ctx, oracleAddr)
+	// NOTE: the oracle's last event nonce is kept, so that an oracle that is approved and
+	// bonded again cannot vote a second time for an event nonce it has already voted for.
 
 	return &types.MsgUnbondedOracleResponse{}, nil
 }
